@@ -48,9 +48,24 @@ def gen_case(rng, tier, stage=None):
                     else:
                         params[f"{op['name']}/{v}"] = str(F(rng.randint(-3, 3), rng.choice([1, 2])))
             pops[name] = {"nt": ntid, "n": n, "params": params}
+        cross = stage == "edge-cross"
+        if cross:
+            # two populations built from the same node template with the same number of units: a coupling edge between them reads the
+            # pre-synaptic x of one and the post-synaptic x of the other (same operator and variable name on both sides)
+            a_, b_ = rng.sample(["p", "q", "e", "inh"], 2)
+            ntid = rng.choice(sorted(nts))
+            op = ops[nts[ntid]["ops"][0]]
+            n = rng.choice([2, 3])
+            pops = {nm: {"nt": ntid, "n": n, "params": {f"{op['name']}/x": [str(F(rng.randint(-3, 3), rng.choice([1, 2]))) for _ in range(n)]}} for nm in (a_, b_)}
+            if pops[a_]["params"] == pops[b_]["params"]:
+                continue
         conns = []
         used_pairs = set()
-        for _ in range(rng.randint(1, 4)):
+        if cross:
+            conns.append({"src": f"{a_}/{op['name']}/x", "tgt": f"{b_}/{op['name']}/r_in",
+                          "W": [[str(F(rng.choice([0, 1, 2, -1, 3]), rng.choice([1, 2]))) for _ in range(n)] for _ in range(n)]})
+            used_pairs.add((conns[0]["src"], conns[0]["tgt"]))
+        for _ in range(rng.randint(0 if cross else 1, 1 if cross else 4)):
             sp_, tp_ = rng.choice(sorted(pops)), rng.choice(sorted(pops))
             sop, top = ops[nts[pops[sp_]["nt"]]["ops"][0]], ops[nts[pops[tp_]["nt"]]["ops"][0]]
             svar = rng.choice([v for v, d in sop["vars"].items() if d["decl"] in ("output", "var")])
@@ -66,6 +81,25 @@ def gen_case(rng, tier, stage=None):
             else:
                 cn["W"] = [[str(F(rng.choice([0, 0, 1, 2, -1, 3]), rng.choice([1, 2]))) for _ in range(ns)] for _ in range(nt_)]
             conns.append(cn)
+        same_src = stage is None and rng.random() < 0.25
+        if same_src:
+            # 2-3 connections leave ONE source variable (towards different target variables): each must keep its own delay / kernel
+            sp_ = rng.choice(sorted(pops))
+            sop = ops[nts[pops[sp_]["nt"]]["ops"][0]]
+            svar = "x"
+            tgts = []
+            for tp_ in sorted(pops):
+                top = ops[nts[pops[tp_]["nt"]]["ops"][0]]
+                for tv in [v for v, d in top["vars"].items() if d["decl"] == "input"]:
+                    tgts.append((tp_, top["name"], tv))
+            rng.shuffle(tgts)
+            conns = []
+            for tp_, ton, tv in tgts[:rng.choice([2, 3, 3])]:
+                ns, nt_ = pops[sp_]["n"], pops[tp_]["n"]
+                conns.append({"src": f"{sp_}/{sop['name']}/{svar}", "tgt": f"{tp_}/{ton}/{tv}",
+                              "W": [[str(F(rng.choice([0, 1, 2, -1, 3]), rng.choice([1, 2]))) for _ in range(ns)] for _ in range(nt_)]})
+            if len(conns) < 2:
+                continue
         if not conns:
             continue
         dt = F(1, 8)
@@ -73,10 +107,12 @@ def gen_case(rng, tier, stage=None):
         case = {"ops": ops, "node_templates": nts, "pops": pops, "conns": conns, "dde": 0,
                 "run": {"T": C.q2s(dt * steps), "dt": C.q2s(dt), "solver": "euler"}}
         st = stage or rng.choice(["plain", "plain", "edge", "dynedge", "delay", "delay", "gamma"])
+        if same_src:
+            st = rng.choice(["delay", "gamma", "chain"])
         case["stage"] = st
-        if st == "edge":
+        if st in ("edge", "edge-cross"):
             # algebraic coupling template reading the pre-synaptic value and a post-synaptic variable
-            cn = rng.choice([c for c in conns if "W" in c] or [None])
+            cn = conns[0] if cross else rng.choice([c for c in conns if "W" in c] or [None])
             if cn is None:
                 continue
             tp_ = cn["tgt"].split("/")[0]
@@ -88,17 +124,31 @@ def gen_case(rng, tier, stage=None):
             cn["edge"] = {"op": "E", "name": "cpl_edge", "var_map": {"pre": "source", "post": post}}
         elif st == "dynedge":
             # dynamic coupling templates: one low-pass state per (target, source) pair; two connections use the SAME operator with different constants
-            mats = [c for c in conns if "W" in c and case["pops"][c["src"].split("/")[0]]["n"] > 1 and case["pops"][c["tgt"].split("/")[0]]["n"] > 1]
-            tg = {}
-            for c in conns:
-                tg[c["tgt"]] = tg.get(c["tgt"], 0) + 1
-            mats = [c for c in mats if tg[c["tgt"]] == 1]
+            mats = [c for c in conns if "W" in c]
             if not mats:
                 continue
             ops["D"] = {"name": "lp", "eqs": [{"lhs": "u", "de": True, "rhs": M.mul(M.var("kk"), M.sub(M.var("pre"), M.var("u")))}, {"lhs": "s", "de": False, "rhs": M.var("u")}],
                         "vars": {"u": {"decl": "var", "value": "0"}, "pre": {"decl": "input", "value": "0"}, "kk": {"decl": "const", "value": "2"}, "s": {"decl": "output", "value": "0"}}}
             for k, cn in enumerate(mats[:2]):
                 cn["edge"] = {"op": "D", "name": f"lp_edge{k}", "var_map": {"pre": "source"}, "values": {"kk": str(F(rng.choice([1, 2, 4, 6]), 1))}}
+        elif st == "delay" and same_src:
+            ds_ = rng.sample([2, 3, 4, 5], 2)
+            pattern = [ds_[0], ds_[1], ds_[1]]          # a repeated delay that is not the first one's
+            for cn, k_ in zip(conns, pattern):
+                cn["delay"] = C.q2s(dt * k_)
+            case["stage"] = "delay-same-source"
+        elif st == "chain" and same_src:
+            # chains of a fixed order (dde_approx) keep their delay in time units: two delays that round to the same number of steps are two kernels
+            case["dde"] = 3
+            dt = F(1, 4)
+            case["run"] = {"T": C.q2s(dt * steps), "dt": C.q2s(dt), "solver": "euler"}
+            for cn, d in zip(conns, rng.sample([F(1, 2), F(3, 8)], 2) + [F(3, 4)]):
+                cn["delay"] = C.q2s(d)
+            case["stage"] = "chain-same-source"
+        elif st == "gamma" and same_src:
+            for cn, (d, s_) in zip(conns, rng.sample(c11.DS, len(conns))):
+                cn["delay"], cn["spread"] = C.q2s(d), C.q2s(s_)
+            case["stage"] = "gamma-same-source"
         elif st == "delay":
             if rng.random() < 0.4:
                 case["dde"] = rng.choice([2, 3])
@@ -238,6 +288,7 @@ def check(tier, seed, replay=None):
     else:
         cases = [json.load(open(f))["case"] for f in sorted(glob.glob(os.path.join(C.VERIF, "corpus", PID, "*.json")))]
         cases += [gen_case(rng, tier) for _ in range(80 if tier == "quick" else 1200)]
+        cases += [gen_case(rng, tier, stage="edge-cross") for _ in range(6 if tier == "quick" else 80)]
     impl = C.run_forked(impl_pop, cases, timeout=300)
     drv = C.Driver()
     bad = []
@@ -309,21 +360,5 @@ def _n(case, path):
     return case["pops"][path.split("/")[0]]["n"]
 
 
-def kf_edge_singleton(case, im, dev):
-    return dev is None and im.get("error") == "IndexError" and any(c.get("edge") and (_n(case, c["src"]) == 1 or _n(case, c["tgt"]) == 1) for c in case["conns"])
-
-
-def kf_edge_multi_input(case, im, dev):
-    tg = {}
-    for c in case["conns"]:
-        tg[c["tgt"]] = tg.get(c["tgt"], 0) + 1
-    return dev is None and im.get("error") == "NameError" and any(c.get("edge") and tg[c["tgt"]] > 1 for c in case["conns"])
-
-
-def kf_singleton_valueerror(case, im, dev):
-    return dev is None and im.get("error") == "ValueError" and "setting an array element" in im.get("msg", "") and any(p["n"] == 1 for p in case["pops"].values())
-
-
-KNOWN = {"C16-coupling-edge-singleton": (kf_edge_singleton, "a Connectivity with a coupling edge template between populations of which one has a single unit raises IndexError('invalid index to scalar variable') (loud)"),
-         "C16-coupling-edge-multi-input": (kf_edge_multi_input, "a Connectivity with a coupling edge template into a target variable that receives further connections raises NameError at the first call (loud)"),
-         "C16-singleton-valueerror": (kf_singleton_valueerror, "a circuit with a population of a single unit that is connected to other populations (or carries a discrete delay) raises ValueError('setting an array element with a sequence') (loud)")}
+# all findings of this property have been repaired in /repo (see known_findings.json, status fixed): nothing is suppressed
+KNOWN = {}
